@@ -39,10 +39,10 @@ def workdir(pid, tag=''):
 _built = set()
 
 
-def build_harness(name='harness'):
+def build_harness(name='harness', profile='release'):
     """cargo build of the harness crate; /repo is a path dependency, so this rebuilds
     rand_distr from the current working tree with --cfg rand_distr_verif."""
-    if name in _built:
+    if (name, profile) in _built:
         return
     d = VERIF / name
     lock = d / 'Cargo.lock'
@@ -50,12 +50,12 @@ def build_harness(name='harness'):
         shutil.copy(REPO / 'Cargo.lock', lock)
     env = dict(os.environ, CARGO_NET_OFFLINE='true')
     t0 = time.time()
-    p = subprocess.run(['cargo', 'build', '--release', '--offline'], cwd=d, env=env,
+    p = subprocess.run(['cargo', 'build', '--offline'] + (['--release'] if profile == 'release' else ['--profile', profile]), cwd=d, env=env,
                        stdout=subprocess.PIPE, stderr=subprocess.STDOUT, text=True)
     if p.returncode != 0:
         raise ToolError('cargo build of %s failed:\n%s' % (name, p.stdout[-4000:]))
-    log('[build] %s ok in %.1fs' % (name, time.time() - t0))
-    _built.add(name)
+    log('[build] %s (%s) ok in %.1fs' % (name, profile, time.time() - t0))
+    _built.add((name, profile))
 
 
 class TLCResult:
